@@ -510,7 +510,7 @@ EIn(e, i, c, toks) ==
     [] e.k = "fn" ->
          LET j == i + 1 + (IF IsNilNode(e.c[1]) THEN 0 ELSE 1) + 1 + ParamsLen(e.c[2]) + 1
              b == SSeqReq(e.c[3].c, j + 1, FnCx, toks)
-         IN RI(b.r, b.i + 1)
+         IN RI(b.r \o <<Rq("close", b.i, c)>>, b.i + 1)
     [] e.k = "lete" -> IF IsNilNode(e.c[2]) THEN RI(<<>>, i + 2) ELSE EReq(e.c[2], i + 3, c, toks)
     [] OTHER -> RI(<<>>, i + 1)
 
@@ -525,11 +525,11 @@ SReq(s, i, c, toks) ==
     [] s.k = "ret" ->
          IF IsNilNode(s.c[1]) THEN RI(me, SkipSemi(toks, i + 1))
          ELSE LET x == EReq(s.c[1], i + 1, c, toks) IN RI(me \o x.r, SkipSemi(toks, x.i))
-    [] s.k = "blk" -> LET b == SSeqReq(s.c, i + 1, BlockCx(c), toks) IN RI(me \o b.r, b.i + 1)
+    [] s.k = "blk" -> LET b == SSeqReq(s.c, i + 1, BlockCx(c), toks) IN RI(me \o b.r \o <<Rq("close", b.i, c)>>, b.i + 1)
     [] s.k = "fdecl" ->
          LET j == i + 2 + 1 + ParamsLen(s.c[2]) + 1
              b == SSeqReq(s.c[3].c, j + 1, FnCx, toks)
-         IN RI(me \o b.r, b.i + 1)
+         IN RI(me \o b.r \o <<Rq("close", b.i, c)>>, b.i + 1)
     [] s.k = "if" ->
          LET cd == EReq(s.c[1], i + 2, c, toks)
              th == SReq(s.c[2], cd.i + 1, c, toks)
